@@ -83,6 +83,8 @@ def expr_eval(e, single: dict, args: dict) -> int:
             return a * b
         if op == "//":
             return a // b
+        if op == "/":
+            return a / b
         raise AssertionError(op)
     if k == "call":
         a = expr_eval(e[2], single, args)
